@@ -111,7 +111,6 @@ inductive Op where
   /- the locked halves of the operations that look at the cluster before they take its lock; used for
      the gated schedules, where that look happened before a concurrent operation finished -/
   | labelsFrom (r : Req) (force : Bool) (mask : Nat)   -- UpdateStoreLabels after its unlocked GetStore
-  | hbHandle (id : Nat) (mask : Nat)                   -- HandleStoreHeartbeat (after the RPC's checkStore)
   | checkOnly (ids : List Nat) (mask : Nat)            -- checkStores restricted to the stores its snapshot listed
   deriving Repr, Inhabited
 
@@ -230,16 +229,6 @@ def grpcHeartbeat (s : St) (id : Nat) (mask : Nat) : Out :=
     else if sv.persisted then reject s .ok
     else
       -- the save may fail: only logged, the heartbeat still succeeds
-      let o := commit s id { sv with persisted := true } (failBit mask 0)
-      { o with res := .ok }
-
-/-- `HandleStoreHeartbeat` alone (the RPC handler's tombstone test was made earlier) -/
-def handleHeartbeat (s : St) (id : Nat) (mask : Nat) : Out :=
-  match get s.served id with
-  | none => reject s .notfound
-  | some sv =>
-    if sv.persisted then reject s .ok
-    else
       let o := commit s id { sv with persisted := true } (failBit mask 0)
       { o with res := .ok }
 
@@ -379,7 +368,6 @@ def step (s : St) : Op → Out
   | .rmtomb order mask => removeTombstones s order mask
   | .region rid stores => regionHeartbeat s rid stores
   | .labelsFrom r force mask => putImpl s r force (failBit mask 0)
-  | .hbHandle id mask => handleHeartbeat s id mask
   | .checkOnly ids mask => checkStoresOnly s ids mask
 
 def init (cfg : Config) (cv : Ver) : St := { cfg := cfg, cv := cv }
